@@ -173,7 +173,14 @@ func c14Closures(c *core.Ctx) {
 		return
 	}
 	kind := Kinds[r.Intn(5)]
-	build := func() stackage.Stack { return NewStack(kind, 0).Push("a", stackage.Or().Push("n1", "n2"), 7) }
+	fold := r.Chance(1, 3)
+	build := func() stackage.Stack {
+		st := NewStack(kind, 0).Push("a", stackage.Or().Push("n1", "n2"), 7)
+		if fold {
+			st.SetFold(true)
+		}
+		return st
+	}
 	s, twin := build(), build()
 	other := build()
 	var log []string
@@ -347,7 +354,16 @@ func c14Closures(c *core.Ctx) {
 
 func c14CondClosures(c *core.Ctx) {
 	r := c.Rng
-	build := func() stackage.Condition { return stackage.Cond("kw", stackage.Eq, "val") }
+	incomplete := r.Chance(1, 4)
+	build := func() stackage.Condition {
+		if incomplete {
+			// keyword and operator only: the built-in rule rejects it, an accepting validity closure decides otherwise
+			var c stackage.Condition
+			c.Init()
+			return c.SetKeyword("kw").SetOperator(stackage.Eq)
+		}
+		return stackage.Cond("kw", stackage.Eq, "val")
+	}
 	cd, twin, other := build(), build(), build()
 	var log []string
 	desc := func() map[string]any { return map[string]any{"receiver": "Condition", "calls": log} }
@@ -405,6 +421,11 @@ func c14CondClosures(c *core.Ctx) {
 			log = append(log, "SetEvaluator(nil)")
 		}
 		c.Count("closure-steps.condition")
+		// what decides validity right now: the closure if installed, else the built-in rule (an incomplete Condition fails it)
+		validNow := !incomplete
+		if inst.vp {
+			validNow = !inst.vpReject
+		}
 		verr := cd.Valid()
 		if inst.vp {
 			if inst.vpReject && verr != vErr {
@@ -421,11 +442,13 @@ func c14CondClosures(c *core.Ctx) {
 		}
 		str := cd.String()
 		switch {
-		case inst.vp && inst.vpReject:
+		case !validNow:
 			if str != "" {
 				c.Violatef("cond:invalid-renders", desc(), "String()=%q although Valid() fails", str)
 				return
 			}
+		case incomplete && !inst.pp:
+			// accepted by the closure although it has no expression: how that renders is not specified
 		case inst.pp:
 			if str != "CPRESENTED" {
 				c.Violatef("cond:presentation-closure-ignored", desc(), "String()=%q", str)
